@@ -29,6 +29,7 @@ bindnode behaviour determined by experiment (go-ipld-prime v0.24.0) and mirrored
 -/
 import GS.Model.Cbor
 import GS.Generated.Schema
+import GS.Generated.StreamLoop
 
 namespace GS.Wire
 open GS.Cbor
@@ -591,15 +592,30 @@ inductive Event where
   | close                    -- deferred s.Close()
 deriving Repr
 
+/-- one action of the generated loop description as events (`deliver` needs the decoded message) -/
+def actEvent (m : Option Msg) : StreamLoop.Act → List Event
+  | .deliver => match m with
+    | some m => [.deliver m]
+    | none => []
+  | .reset => [.reset]
+  | .receiveError => [.receiveError]
+  | .close => [.close]
+
+def runActs (m : Option Msg) (as : List StreamLoop.Act) : List Event := as.flatMap (actEvent m)
+
 /-- handleNewStream with a receiver installed: events for the given sequence of iteration outcomes
-    (if the outcomes run out, the loop is still blocked in a read: nothing more happens). -/
+    (if the outcomes run out, the loop is still blocked in a read: nothing more happens).
+    What is done in each situation is NOT written here: it is the table GS/Generated/StreamLoop.lean
+    extracted from network/libp2p_impl.go on every run (success path, failure branch behind the
+    `err != io.EOF` test, end-of-stream branch, recovered panic, deferred calls). -/
 def handleStream : List Outcome → List Event
   | [] => []
-  | .msg m :: rest => .deliver m :: handleStream rest
-  | .msgPanic m :: _ => [.deliver m, .reset, .receiveError, .close]
-  | .eof :: _ => [.close]
-  | .error :: _ => [.reset, .receiveError, .close]
-  | .panic :: _ => [.reset, .receiveError, .close]
+  | .msg m :: rest => runActs (some m) StreamLoop.onMessage ++ handleStream rest
+  | .msgPanic m :: _ =>
+    runActs (some m) StreamLoop.onMessage ++ runActs none StreamLoop.onPanic ++ runActs none StreamLoop.deferred
+  | .eof :: _ => runActs none StreamLoop.onEOF ++ runActs none StreamLoop.deferred
+  | .error :: _ => runActs none StreamLoop.onError ++ runActs none StreamLoop.deferred
+  | .panic :: _ => runActs none StreamLoop.onPanic ++ runActs none StreamLoop.deferred
 
 /-- the outcomes a complete (closed) byte stream produces when nothing panics -/
 def outcomesOf (hash : Hash) (bs : Bytes) : List Outcome :=
